@@ -1,7 +1,7 @@
 (* What the per-run files of C10 evaluate: one [celcase] per corpus expression, written by
    `genharness celcoq` from cel-go's AST, the emitted Go condition and the observations of the compiled
    validator and of cel-go on every binding. *)
-From GV Require Import Base.Bytes Base.StrOps Base.GoFloat Cel.Syntax Cel.CelSem Cel.GoSem Cel.Translate Cel.Env Cel.Typing.
+From GV Require Import Base.Bytes Base.StrOps Base.GoFloat Cel.Syntax Cel.CelSem Cel.GoSem Cel.Translate Cel.Env Cel.Typing Cel.SoundBase Cel.Sound.
 Local Open Scope Z_scope.
 
 Inductive gobs := GoPass | GoFail | GoPanic | GoOther.
@@ -122,7 +122,7 @@ Definition check_case (c : celcase) : celreport :=
              end in
   {| cr_model_generates := match model with Some _ => true | None => false end;
      cr_cert := opt_gexpr_eqb (cc_real c) model;
-     cr_fragment := match cc_ast c with Some e => in_fragment (cc_fields c) (cc_fname c) e | None => false end;
+     cr_fragment := match cc_ast c with Some e => proved_fragment (cc_fields c) (cc_fname c) e | None => false end;
      cr_structs_ok := forallb (fun row => match row with (rho, _, _) => struct_ok (cc_fields c) rho end) (cc_rows c);
      cr_cel_evaluated := if exec_ok then celn else O;
      cr_cel_mismatch := if exec_ok then celm else [];
@@ -140,3 +140,28 @@ Definition b2n' (b : bool) : nat := if b then 1%nat else 0%nat.
 Definition report_row (i : nat) (r : celreport) :=
   (i, [b2n' (cr_model_generates r); b2n' (cr_cert r); b2n' (cr_fragment r); b2n' (cr_structs_ok r); cr_cel_evaluated r; cr_go_evaluated r],
    cr_cel_mismatch r, cr_go_mismatch r, cr_spec_violation r).
+
+(* ---------- the theorem about the code that was actually emitted ---------- *)
+Definition case_re_ok (c : celcase) (p : bytes) : bool := match glookup (cc_res c) p with Some b => b | None => true end.
+
+(* If the kernel accepts the certificate of a corpus expression (emitted condition = model's condition) and the
+   expression lies in the proved fragment, then for EVERY struct value of the declared field types the emitted
+   condition evaluates to a boolean, and it is the negation of cel-go's verdict whenever cel-go yields one. *)
+Theorem case_sound (c : celcase) re_match parse_float fmt_g parse_dur :
+  (forall p, case_re_ok c p = true -> forall s, re_match p s <> None) ->
+  (forall s z, parse_dur s = Some z -> in_i64 z = true) ->
+  cr_cert (check_case c) = true -> cr_fragment (check_case c) = true ->
+  exists e cond, cc_ast c = Some e /\ cc_real c = Some cond /\
+    forall rho, struct_ok (cc_fields c) rho = true ->
+    exists r, geval re_match parse_float fmt_g parse_dur (go_fields rho) [] cond = GV (GBool r) /\
+              (forall b, ceval re_match parse_float fmt_g parse_dur (cel_env (cc_fname c) rho) e = Some (CV (VBool b)) -> r = negb b).
+Proof.
+  intros Hre Hdur Hcert Hfrag. unfold check_case in Hcert, Hfrag. cbv zeta in Hcert, Hfrag. cbn [cr_cert cr_fragment] in Hcert, Hfrag.
+  destruct (cc_ast c) as [e|] eqn:Ea; [|discriminate Hfrag].
+  unfold opt_gexpr_eqb in Hcert. destruct (cc_real c) as [cond|] eqn:Er; [|cbn in Hcert; discriminate Hcert].
+  change (match cel_condition (cc_fname c) (case_re_ok c) (cc_src c) (Some e) with Some y => gexpr_eqb cond y | None => false end = true) in Hcert.
+  destruct (cel_condition (cc_fname c) (case_re_ok c) (cc_src c) (Some e)) as [m|] eqn:Em; [|cbn in Hcert; discriminate Hcert].
+  apply gexpr_eqb_eq in Hcert. subst m.
+  exists e, cond. split; [reflexivity|]. split; [reflexivity|]. intros rho Hrho.
+  eapply cel_condition_sound; eassumption.
+Qed.
